@@ -1,5 +1,5 @@
 (* Props/C09.v -- property theorems for C09 (editTimestamps, appendTier). *)
-From PraatIO Require Import Tier.TierModel Tier.CtorProofs Tier.EraseProofs Tier.EditProofs.
+From PraatIO Require Import Tier.TierModel Tier.CtorProofs Tier.EraseProofs Tier.EditProofs Textgrid.TgModel Textgrid.TgProofs.
 
 Theorem C09_edit_entries o l : filter_map (edit1 o) l = edit_spec_ents o l.
 Proof. exact (edit_entries o l). Qed.
@@ -44,3 +44,24 @@ Theorem C09_append_tier A B :
   Ok (mkIT (iname A) (ients A ++ map (shift (imax A)) (ients B)) (imin A) (imax A + imax B)).
 Proof. exact (append_i_ok A B). Qed.
 Print Assumptions C09_append_tier.
+
+(* Textgrid.editTimestamps: the same tiers under the same names in the same order, every tier
+   that tier's own editTimestamps (a tier without entries is carried over as it is), and the
+   textgrid's span never shrinks *)
+Theorem C09_textgrid_edit_tierwise g o m g' :
+  tg_edit g o m = Ok g' ->
+  names g' = names g
+  /\ Forall2 (fun t t' => edit_or_keep t o m = Ok t') (tiers g) (tiers g')
+  /\ span_le g g'.
+Proof. exact (tg_edit_tierwise g o m g'). Qed.
+Print Assumptions C09_textgrid_edit_tierwise.
+
+(* Textgrid.appendTextgrid: which tiers come back and in which order -- with onlyMatchingNames
+   the tiers of A that B also has, in A's order; without it A's tiers followed by the tiers only
+   B has, in B's order *)
+Theorem C09_append_textgrid_tiers A B only g' :
+  NoDup (names A) -> NoDup (names B) -> tg_append A B only = Ok g' ->
+  names g' = (if only then filter (fun n => name_in n (names B)) (names A)
+              else names A ++ filter (fun n => negb (name_in n (names A))) (names B)).
+Proof. exact (tg_append_names A B only g'). Qed.
+Print Assumptions C09_append_textgrid_tiers.
